@@ -3,9 +3,14 @@ from gosym.check import Task
 
 ID = 'C06'
 PKG = 'pkg/frame'
-HARNESS_FILES = ['pkg/frame/zz_verif_common.go', 'pkg/frame/zz_verif_c06.go']
+HARNESS_FILES = ['pkg/frame/zz_verif_common.go', 'pkg/frame/zz_verif_c06.go', 'pkg/frame/zz_verif_dialect.go',
+                 'pkg/frame/zz_verif_c02.go', 'pkg/frame/zz_verif_c05.go', 'pkg/frame/zz_verif_export.go',
+                 'pkg/frame/zz_verif_msgs.go', 'pkg/streamwriter/zz_verif_c09.go', 'zz_verif_node.go', 'zz_verif_c10.go']
+KERNEL_PKGS = ['.']
+CLOCK_PKGS = ['pkg/streamwriter']
+ROOTS = ['verifHarness_C06', 'verifHarness_C09_step']
 ALLOW = 'bufio,io,encoding/binary,errors,bytes'
-INITS = 'io,bufio,errors'
+INITS = 'io,bufio,errors,github.com/bluenviron/gomavlib/v3/pkg/message'
 OPTIONS = {}
 ANCHOR_FILES = ['/repo/pkg/frame/v2_frame.go', '/repo/pkg/frame/reader.go', '/repo/pkg/frame/writer.go',
                 '/repo/pkg/streamwriter/writer.go', '/repo/channel.go', '/repo/node.go']
@@ -21,11 +26,20 @@ def tasks(tier):
         ts.append(Task('verifHarness_C06_formula', [n]))
         for kind in (0, 1, 2, 3):
             ts.append(Task('verifHarness_C06_gate', [kind, n]))
+    # (c) frames produced by a keyed stream writer carry flag, link id, timestamp and a signature per the formula
+    for shape in range(4):
+        for raw in (0, 1):
+            ts.append(Task('verifHarness_C09_step', [2, 1, shape, 2, raw], {'x25_uf': True}, pkg='pkg/streamwriter'))
+    # (d) the node hands its keys to each channel's reader and writer
+    for version in (1, 2):
+        for ik in (0, 1):
+            for ok in (0, 1):
+                ts.append(Task('verifHarness_C06_channel', [version, ik, ok], {'x25_uf': True}, pkg='.'))
     return ts
 
 
 def required_reach(tier):
-    return ['C06/a', 'C06/b']
+    return ['C06/a', 'C06/b', 'C09/S', 'C06/d']
 
 
 def bounds(tier):
